@@ -357,8 +357,12 @@ var propScans = map[string][]scanFn{}
 func (g *Gen) autoCanaries() []*Obligation {
 	k := g.fn.String()
 	out := []*Obligation{{Name: g.fnShort() + "/canary:entry-reachable", Kind: "canary", Fn: k, PrefixLen: g.entryPrefix, PC: "true", Goal: "false", Canary: true, Script: g.sc}}
-	for i, rp := range g.rets {
-		out = append(out, &Obligation{Name: fmt.Sprintf("%s/canary:return%d-reachable", g.fnShort(), i+1), Kind: "canary", Fn: k, PrefixLen: len(g.sc.lines), PC: rp.st.pc, Goal: "false", Canary: true, Script: g.sc})
+	if len(g.rets) > 0 {
+		var pcs []string
+		for _, rp := range g.rets {
+			pcs = append(pcs, rp.st.pc)
+		}
+		out = append(out, &Obligation{Name: g.fnShort() + "/canary:exit-reachable", Kind: "canary", Fn: k, PrefixLen: len(g.sc.lines), PC: "(or " + strings.Join(pcs, " ") + " false)", Goal: "false", Canary: true, Script: g.sc})
 	}
 	return out
 }
